@@ -7,7 +7,9 @@ import (
 	"fmt"
 	"math/big"
 	"sort"
+	"strconv"
 	"strings"
+	"sync"
 )
 
 type Sort int
@@ -43,22 +45,59 @@ type Term struct {
 	Name string   // for Op=="const"
 	Val  *big.Int // for Op=="int"
 	str  string   // cached rendering
+	id   int64
 }
 
 var (
-	tTrue  = &Term{Op: "true", Sort: SBool}
-	tFalse = &Term{Op: "false", Sort: SBool}
+	internMu  sync.Mutex
+	internTab = map[string]*Term{}
+	internSeq int64
+	tTrue     = intern(&Term{Op: "true", Sort: SBool})
+	tFalse    = intern(&Term{Op: "false", Sort: SBool})
 )
 
-func mkInt(v *big.Int) *Term { return &Term{Op: "int", Sort: SInt, Val: new(big.Int).Set(v)} }
-func mkI(v int64) *Term      { return &Term{Op: "int", Sort: SInt, Val: big.NewInt(v)} }
+// intern returns the unique node for a term (hash-consing): structurally equal terms
+// are pointer-equal, renderings and traversals are shared.
+func intern(t *Term) *Term {
+	var kb strings.Builder
+	kb.WriteString(t.Op)
+	kb.WriteByte('|')
+	kb.WriteByte(byte('0' + t.Sort))
+	kb.WriteByte('|')
+	kb.WriteString(t.Name)
+	if t.Val != nil {
+		kb.WriteByte('#')
+		kb.WriteString(t.Val.String())
+	}
+	for _, a := range t.Args {
+		kb.WriteByte(',')
+		kb.WriteString(strconv.FormatInt(a.id, 36))
+	}
+	k := kb.String()
+	internMu.Lock()
+	defer internMu.Unlock()
+	if u, ok := internTab[k]; ok {
+		return u
+	}
+	internSeq++
+	t.id = internSeq
+	internTab[k] = t
+	return t
+}
+
+func mkForall(name string, body *Term) *Term {
+	return intern(&Term{Op: "forall", Sort: SBool, Name: name, Args: []*Term{body}})
+}
+
+func mkInt(v *big.Int) *Term { return intern(&Term{Op: "int", Sort: SInt, Val: new(big.Int).Set(v)}) }
+func mkI(v int64) *Term      { return intern(&Term{Op: "int", Sort: SInt, Val: big.NewInt(v)}) }
 func mkBool(b bool) *Term {
 	if b {
 		return tTrue
 	}
 	return tFalse
 }
-func mkConst(name string, s Sort) *Term { return &Term{Op: "const", Name: name, Sort: s} }
+func mkConst(name string, s Sort) *Term { return intern(&Term{Op: "const", Name: name, Sort: s}) }
 
 func (t *Term) isInt() bool   { return t.Op == "int" }
 func (t *Term) isTrue() bool  { return t.Op == "true" }
@@ -99,9 +138,11 @@ func (t *Term) String() string {
 	return s
 }
 
-func eqTerm(a, b *Term) bool { return a == b || a.String() == b.String() }
+func eqTerm(a, b *Term) bool { return a == b }
 
-func app(op string, s Sort, args ...*Term) *Term { return &Term{Op: op, Sort: s, Args: args} }
+func app(op string, s Sort, args ...*Term) *Term {
+	return intern(&Term{Op: op, Sort: s, Args: append([]*Term(nil), args...)})
+}
 
 var (
 	two64  = new(big.Int).Lsh(big.NewInt(1), 64)
@@ -475,8 +516,8 @@ func mkStore(a, i, v *Term) *Term {
 	return app("store", a.Sort, a, i, v)
 }
 
-func mkK0() *Term { return &Term{Op: "K0", Sort: SArr} }
-func mkKF() *Term { return &Term{Op: "KF", Sort: SArrB} }
+func mkK0() *Term { return intern(&Term{Op: "K0", Sort: SArr}) }
+func mkKF() *Term { return intern(&Term{Op: "KF", Sort: SArrB}) }
 
 // ---------- uninterpreted functions ----------
 
@@ -575,13 +616,23 @@ func rangeOf(t ityp, x *Term) *Term {
 
 // ---------- traversal ----------
 
+// walk visits every distinct subterm once (terms are DAGs).
 func walk(t *Term, f func(*Term) bool) {
-	if !f(t) {
-		return
+	seen := map[*Term]bool{}
+	var rec func(u *Term)
+	rec = func(u *Term) {
+		if seen[u] {
+			return
+		}
+		seen[u] = true
+		if !f(u) {
+			return
+		}
+		for _, a := range u.Args {
+			rec(a)
+		}
 	}
-	for _, a := range t.Args {
-		walk(a, f)
-	}
+	rec(t)
 }
 
 // subst replaces free constants by terms.
@@ -601,24 +652,38 @@ func subst(t *Term, m map[string]*Term) *Term {
 
 // rebuild maps leaves through f (nil = keep) and re-applies the simplifying constructors.
 func rebuild(t *Term, f func(*Term) *Term) *Term {
-	if r := f(t); r != nil {
-		return r
-	}
-	if len(t.Args) == 0 {
-		return t
-	}
-	args := make([]*Term, len(t.Args))
-	changed := false
-	for i, a := range t.Args {
-		args[i] = rebuild(a, f)
-		if args[i] != a {
-			changed = true
+	memo := map[*Term]*Term{}
+	var rec func(u *Term) *Term
+	rec = func(u *Term) *Term {
+		if r, ok := memo[u]; ok {
+			return r
 		}
+		var out *Term
+		if r := f(u); r != nil {
+			out = r
+		} else if len(u.Args) == 0 {
+			out = u
+		} else {
+			args := make([]*Term, len(u.Args))
+			changed := false
+			for i, a := range u.Args {
+				args[i] = rec(a)
+				if args[i] != a {
+					changed = true
+				}
+			}
+			if !changed {
+				out = u
+			} else if u.Op == "forall" {
+				out = mkForall(u.Name, args[0])
+			} else {
+				out = reapply(u.Op, u.Sort, args)
+			}
+		}
+		memo[u] = out
+		return out
 	}
-	if !changed {
-		return t
-	}
-	return reapply(t.Op, t.Sort, args)
+	return rec(t)
 }
 
 func reapply(op string, s Sort, a []*Term) *Term {
